@@ -188,6 +188,7 @@ func body(r *explore.Run, sc scenario, rep *report.R) {
 			return c.Key.Kind == xrh.XRGVK.Kind && cm != nil && cm.GetDeletionTimestamp() != nil
 		},
 		Filter:         func(c simkube.Call) bool { return c.Client == "claim" }}
+	inj.WithErrClasses(s)
 	s.Inj = inj
 	cc := &lagClient{Client: s.Client("claim"), r: r, armed: &armed, taken: &lagTaken}
 	mkClaim := func() *claimRec { return &claimRec{xrh.NewClaimReconciler(xrd, cc, sc.ssa)} }
